@@ -46,6 +46,13 @@ def gen_case(r, index, tier):
     nmov = r.randint(4, 9)
     nl = designs.gen_netlist(r, die, nmods=nmov + r.randint(0, 3), kinds=["soft", "soft", "soft", "hard", "fixed"],
                              allow_terminals=False, need_centers=True, connected=True, min_movable=nmov, allow_regions=False)
+    # pinned terminals (fixed, with a centre) are fixed modules too; movable terminals are outside C14's quantifier
+    for i in range(r.weighted([(0, 3), (1, 2), (2, 1)])):
+        name = "T%d" % i
+        nl["modules"].append({"name": name, "kind": "terminal", "fixed_terminal": True,
+                              "center": (r.choice([0, 2 * W, r.randint(0, 2 * W)]), r.choice([0, 2 * H, r.randint(0, 2 * H)]))})
+        other = r.choice([m["name"] for m in nl["modules"] if m["name"] != name])
+        nl["nets"].append({"mods": [name, other], "w": r.choice([1, 2, 0.5])})
     # discs must fit: cap soft areas
     cap = (0.45 * min(W, H)) ** 2 * math.pi
     tot = 0
@@ -181,6 +188,9 @@ def run_case(case):
         SA.random = rnd
         net = SP.Spectral(tree)
         before, nets_before = _snapshot(net)
+        # the nets of the *input document* are the reference (constructing the Spectral object must not change them either)
+        nets_before = [[[x for x in e if isinstance(x, str)], float(e[-1]) if not isinstance(e[-1], str) else 1.0]
+                       for e in tree["Nets"]]
         unknown = sum(1 for i, m in enumerate(net.modules) if not m.is_fixed)
         key = {"mode": "honest-seed" if mode == "mt" else "low-entropy"}
         entry = {"seed": t["seed"], "mode": mode, "nfloorplans": nfp}
@@ -202,12 +212,11 @@ def run_case(case):
         if nfp > 0 and case["nfloorplans"] > 0:
             want = 2 * unknown * nfp
             if rnd.draws != want:
-                viol.append({"property": "C14", "clause": "unexpected number of random draws (a second source of randomness, "
-                                                          "or draws not tied to the unknown coordinates)", "key": key,
-                             "detail": {"draws": rnd.draws, "expected": want}})
+                # observation only: C14 does not prescribe how many draws a layout takes
+                probe("draw_count_differs_from_2_per_unknown_node_per_trial")
         problems = []
         after, nets_after = _snapshot(net)
-        if canon(nets_after) != canon(nets_before):
+        if canon([[e[0], float(e[1])] for e in nets_after]) != canon(nets_before):
             problems.append(("nets changed", {}))
         for m in net.modules:
             b, a = before[m.name], after[m.name]
@@ -216,6 +225,9 @@ def run_case(case):
             if b["fixed"]:
                 if canon(a["rects"]) != canon(b["rects"]):
                     problems.append(("fixed module moved", {"module": m.name, "before": b["rects"], "after": a["rects"]}))
+                elif b["kind"] == "terminal" and (a["center"] is None or abs(a["center"][0] - b["center"][0]) > 1e-12 * max(W, H)
+                                                  or abs(a["center"][1] - b["center"][1]) > 1e-12 * max(W, H)):
+                    problems.append(("fixed module moved", {"module": m.name, "before": b["center"], "after": a["center"]}))
                 continue
             rad = math.sqrt(m.area() / math.pi)
             if b["kind"] == "hard":
